@@ -69,7 +69,10 @@ def _cmp_ops(a, b):
 
 def check_tuple(case):
     """case: list of 2 or 3 JSON objects"""
-    objs = [_obj(j) for j in case]
+    try:
+        objs = [_obj(j) for j in case]
+    except TypeError as exc:  # building a MeshBasis sorts mesh-type patterns of mixed classes
+        return BAD("construct_raises", {"exc": str(exc)})
     n = len(objs)
     # equality laws
     for i in range(n):
@@ -151,7 +154,10 @@ def check_tuple(case):
 
 def check_lifetime(case):
     """case: {"objs": [json...], "ops": [[op, ...], ...]}"""
-    objs = [_obj(j) for j in case["objs"]]
+    try:
+        objs = [_obj(j) for j in case["objs"]]
+    except TypeError as exc:
+        return BAD("construct_raises", {"exc": str(exc)})
     first = [hash(o) for o in objs]
     keep = []
     bursts = 0
